@@ -89,6 +89,8 @@ pub fn start_query() {
 /// query it was meant for: a query which was constructed earlier, and is
 /// run with next_solution() afterwards, would find no rules.
 pub fn end_query() {
+    #[cfg(suiron_verif)]
+    crate::verif_hooks::emit(crate::verif_hooks::Event::EndQuery);
     QUERY_EPOCH.fetch_add(1, Ordering::SeqCst);
 }
 
